@@ -85,3 +85,32 @@ pub fn ord_str(o: std::cmp::Ordering) -> &'static str {
         std::cmp::Ordering::Greater => "gt",
     }
 }
+
+/// FNV-1a 64: cheap identity of byte strings on the wire (not a security claim)
+pub fn fnv(b: &[u8]) -> u64 {
+    let mut h: u64 = 0xcbf29ce484222325;
+    for x in b {
+        h ^= *x as u64;
+        h = h.wrapping_mul(0x100000001b3);
+    }
+    h
+}
+
+/// large blobs travel by file reference `@path` (hex inside the file would double the size: raw bytes)
+pub fn blob_arg(ctx_dir: &str, name: &str, data: &[u8]) -> String {
+    if data.len() <= 4096 {
+        hx(data)
+    } else {
+        let p = format!("{}/{}.bin", ctx_dir, name);
+        std::fs::write(&p, data).expect("write blob");
+        format!("@{}", p)
+    }
+}
+
+pub fn arg_bytes(a: &str) -> Vec<u8> {
+    if let Some(p) = a.strip_prefix('@') {
+        std::fs::read(p).expect("read blob")
+    } else {
+        unhx(a)
+    }
+}
